@@ -81,8 +81,27 @@ func afRandVal(r *rand.Rand) string {
 	return strings.TrimSpace(b.String())
 }
 
+// sizes above the decoders' pre-allocation threshold (readSized: 1 MiB)
+var afHuge = []int{1<<20 + 1, 1<<20 + 4097, 3 << 19, 2<<20 + 1}
+
 func afRandBody(r *rand.Rand, maxBody int, text bool) []byte {
 	var n int
+	if maxBody > 1<<20 { // "huge" files: every body is beyond 1 MiB or small
+		if r.Intn(4) > 0 {
+			n = afHuge[r.Intn(len(afHuge))]
+		} else {
+			n = r.Intn(50)
+		}
+		out := make([]byte, n)
+		r.Read(out)
+		if text {
+			const ch = "abc XYZ019\n\"\\{}[]:,"
+			for i := range out {
+				out[i] = ch[int(out[i])%len(ch)]
+			}
+		}
+		return out
+	}
 	switch r.Intn(10) {
 	case 0, 1:
 		n = 0
@@ -135,6 +154,9 @@ func afRandEntry(r *rand.Rand, format string, maxBody int, long bool) *afEntry {
 		e.body = afRandBody(r, maxBody, false)
 	case "raw", "json":
 		e.Method = afMethods[r.Intn(len(afMethods))]
+		if maxBody > 1<<20 {
+			e.Method = afMethods[1+r.Intn(2)] // POST, PUT: entries with bodies
+		}
 		e.Host = []string{"h1", "h2:8080", "example.com", "[::1]:8080"}[r.Intn(4)]
 		if e.Method != "GET" && e.Method != "DELETE" && e.Method != "HEAD" && e.Method != "OPTIONS" {
 			e.body = afRandBody(r, maxBody, format == "json")
@@ -181,6 +203,9 @@ func afRandomCases(seed int64, n int, mode string, maxEntries, maxBody int) []*a
 				mb = maxBody / 8 // keep a single file within tens of megabytes
 			}
 			long := ne <= 60 // long lines / values / many headers in the files with few entries
+			if k%5 == 1 && format != "uri" { // a few files of 2-4 entries with bodies beyond 1 MiB, several alive at once
+				ne, mb, long = 2+r.Intn(3), 1<<21, false
+			}
 			c := &afCase{Fmt: format, Src: fmt.Sprintf("random:%d:%d", seed, k)}
 			for len(c.Items) == 0 || ne > 0 {
 				switch x := r.Intn(10); {
